@@ -177,6 +177,16 @@ theorem members_eq (hw : 0 < w) (n : Nat) (e : Expr w) (hv : e.Valid n) :
 
 /-! ## Arbitrary word arrays: bit addressing, well-formed arrays, dirty padding -/
 
+/-- `fcppt::bit::shifted_mask` as used by the proxy (`bit_mask (bit_offset pos)`): exactly bit `pos % w`. -/
+theorem shifted_mask_spec (hw : 0 < w) (i k : Nat) (hk : k < w) :
+    (mask w i).getLsbD k = decide (k = i % w) :=
+  mask_getLsbD hw i k hk
+
+/-- `fcppt::bit::test` against a shifted mask reads that bit. -/
+theorem bit_test_spec (hw : 0 < w) (x : BitVec w) (i : Nat) :
+    bitTest x (mask w i) = x.getLsbD (i % w) := by
+  simpa [bitTest] using and_mask_ne_zero hw x i
+
 /-- **Bit addressing**: enumerator `i` is bit `i % w` of word `i / w` (`proxy::array_offset`,
 `bit_offset`, `bit_mask`, `bit::test`), for any array. -/
 theorem get_addressing (hw : 0 < w) (a : Words w) (i : Nat) :
